@@ -7,7 +7,7 @@ from . import common
 
 ID = "C03"
 LEVEL = "exploration"
-BUDGET = {"quick": 1600, "thorough": 32000}
+BUDGET = {"quick": 1400, "thorough": 28000}
 WALL_CAP = {"quick": 600, "thorough": 5400}
 RULE = ("case = generated well-formed 2D/3D plotfile (scattered/non-monotone layouts, stale-level and long "
         "refinement-ratio header variants, special payloads only when the options do not read data); per world ALL 16 "
